@@ -16,7 +16,7 @@ CLAUSE_PROPS = {
     "DOFACT equed": {"C11"}, "refact retains memory": {"C17"}, "factors inside workspace": {"C14"},
     "X untouched on singular": {"C06"}, "info=n+1 iff rcond<eps": {"C12"},
     "backward error of X (original system)": {"C07", "C08", "C01"}, "berr truthful": {"C13"}, "ferr dominates": {"C13"},
-    "rcond sandwich": {"C12"}, "pivot growth": {"C12"},
+    "rcond sandwich": {"C12"}, "pivot growth": {"C12"}, "diagonal pivots (perm_r = perm_c)": {"C16"},
 }
 
 
